@@ -3,6 +3,7 @@ package midix
 import (
 	"fmt"
 	"log/slog"
+	"math"
 
 	"github.com/berquerant/crd/errorx"
 	"github.com/berquerant/crd/logx"
@@ -150,12 +151,33 @@ func NewTrack() *Track {
 	return &Track{}
 }
 
+// MaxTickDelta is the largest delta time a Standard MIDI File can hold (a variable-length quantity of 4 bytes).
+const MaxTickDelta = 1<<28 - 1
+
+// addTicks adds tick deltas without wrapping round, a sum that does not fit stays above MaxTickDelta.
+func addTicks(a, b uint32) uint32 {
+	if s := a + b; s >= a {
+		return s
+	}
+	return math.MaxUint32
+}
+
 func (t Track) Len() int                       { return len(t.ops) }
-func (t *Track) AddTickDelta(tickDelta uint32) { t.tickDelta += tickDelta }
+func (t *Track) AddTickDelta(tickDelta uint32) { t.tickDelta = addTicks(t.tickDelta, tickDelta) }
 func (t *Track) Add(op *TrackOp) {
-	op.TickDelta += t.tickDelta
+	op.TickDelta = addTicks(op.TickDelta, t.tickDelta)
 	t.ops = append(t.ops, op)
 	t.tickDelta = 0
+}
+
+// Validate reports a delta time that a Standard MIDI File cannot hold.
+func (t Track) Validate() error {
+	for _, x := range t.ops {
+		if x.TickDelta > MaxTickDelta {
+			return errorx.Invalid("delta time exceeds %d ticks, too long for a midi file", MaxTickDelta)
+		}
+	}
+	return nil
 }
 
 func (t Track) Apply(tt *smf.Track) {
